@@ -89,6 +89,7 @@ func zzCheckFormat(src, what string, run bool) string {
 		zzLog("C06 formatted text rejected (" + what + ")\n--- source\n" + src + "\n--- formatted\n" + out + "\n" + err2.Error())
 	}
 	zzA6(err2 == nil, "C06: the formatted text is accepted again")
+	zzA7(err2 == nil, "C07: the formatter's own output can be formatted again (it is not accepted)")
 	if err2 != nil {
 		return out
 	}
@@ -103,7 +104,12 @@ func zzCheckFormat(src, what string, run bool) string {
 		zzLog("C07 not idempotent (" + what + ")\n--- once\n" + out + "\n--- twice\n" + out2)
 	}
 	zzA7(out2 == out, "C07: formatting twice gives the same text as formatting once")
-	zzA7(strings.HasSuffix(out, "\n") && !strings.HasSuffix(out, "\n\n"), "C07: formatted text ends with exactly one newline")
+	oneNL := strings.HasSuffix(out, "\n") && !strings.HasSuffix(out, "\n\n")
+	if zzEndsWithBlankLine(src) {
+		zzA7(oneNL, "C07: formatted text ends with exactly one newline when the source ends with blank lines")
+	} else {
+		zzA7(oneNL, "C07: formatted text ends with exactly one newline")
+	}
 	lines := strings.Split(strings.TrimSuffix(out, "\n"), "\n")
 	prevEmpty := false
 	for _, line := range lines {
@@ -113,6 +119,17 @@ func zzCheckFormat(src, what string, run bool) string {
 		ind := len(line) - len(strings.TrimLeft(line, " "))
 		zzA7(!strings.HasPrefix(strings.TrimLeft(line, " "), "\t") && ind%4 == 0, "C07: indentation is a multiple of four spaces, no tabs")
 	}
+	want := zzExpectedIndents(out)
+	for k, line := range lines {
+		if line == "" || k >= len(want) {
+			continue
+		}
+		ind := len(line) - len(strings.TrimLeft(line, " "))
+		if ind != want[k] {
+			zzLog("C07 indentation (" + what + ") line " + strconv.Itoa(k+1) + " has " + strconv.Itoa(ind) + " want " + strconv.Itoa(want[k]) + "\n" + out)
+		}
+		zzA7(ind == want[k], "C07: every line is indented four spaces per enclosing block and multi-line literal")
+	}
 	if run {
 		p1, p2 := &zzPlat{}, &zzPlat{}
 		e1, e2 := NewEvaluator(p1), NewEvaluator(p2)
@@ -120,6 +137,71 @@ func zzCheckFormat(src, what string, run bool) string {
 		zzA6((r1 == nil) == (r2 == nil) && p1.out() == p2.out(), "C06: source and formatted source behave identically when run")
 	}
 	return out
+}
+
+// zzExpectedIndents: the indentation every line of a formatted text should
+// have: four spaces per enclosing block (if/else/while/for/func/on ... end)
+// plus four per enclosing multi-line array or map literal; a line that starts
+// with end/else or a closing bracket belongs to the level of its opener.
+func zzExpectedIndents(text string) []int {
+	var want []int
+	depth, lit := 0, 0
+	for _, line := range strings.Split(strings.TrimSuffix(text, "\n"), "\n") {
+		l := lexer.New(line)
+		first := true
+		opens := false
+		d := depth + lit
+		for tok := l.Next(); tok.Type != lexer.EOF; tok = l.Next() {
+			switch tok.Type {
+			case lexer.WS, lexer.NL:
+				continue
+			case lexer.END:
+				if first {
+					depth--
+					d = depth + lit
+				}
+			case lexer.ELSE:
+				if first {
+					d = depth - 1 + lit
+				}
+			case lexer.IF, lexer.WHILE, lexer.FOR, lexer.FUNC, lexer.ON:
+				if first {
+					opens = true
+				}
+			case lexer.LBRACKET, lexer.LCURLY:
+				lit++
+			case lexer.RBRACKET, lexer.RCURLY:
+				lit--
+				if first {
+					d = depth + lit
+				}
+			}
+			first = false
+		}
+		if opens {
+			depth++
+		}
+		want = append(want, 4*d)
+	}
+	return want
+}
+
+// zzEndsWithBlankLine: src has a non-blank line followed by at least one
+// blank line at its end.
+func zzEndsWithBlankLine(src string) bool {
+	lines := strings.Split(src, "\n")
+	if len(lines) > 0 && strings.TrimSpace(lines[len(lines)-1]) == "" {
+		lines = lines[:len(lines)-1] // text after the final newline
+	}
+	if len(lines) < 2 || strings.TrimSpace(lines[len(lines)-1]) != "" {
+		return false
+	}
+	for _, l := range lines {
+		if strings.TrimSpace(l) != "" {
+			return true
+		}
+	}
+	return false
 }
 
 // zzSqueeze removes the empty lines that empty statements leave in Program.String().
@@ -160,13 +242,21 @@ var zzFmtCorpus = []string{
 	"// a\n\n// b\nfunc f\n    print 1\nend\n// c\nf\n",
 	"x := [[1 2] [ ]  {} ]\nprint x\n",
 	"print (len \"abc\")   (len [1 2])\n",
+	// number literals of every magnitude are written back in a form that parses again
+	"a := 0.00001\nb := 2500000\nc := 123456789012345678901234\nd := 0.000000001\nprint a b c d 0.5 100000 1234567.125\n",
+	// multi-line literals inside blocks, with trailing and own-line comments
+	"if true\n    a := [\n        1 // one\n    ]\n    print a\nend\n",
+	"func f\n    m := {\n        a: 1 // A\n        // own\n        b: [\n            2 // two\n        ]\n    }\n    print m\nend\nf\n",
+	"for i := range 2\n    if i > 0\n        a := [ // first\n            i\n            [\n                i // nested\n            ] // after\n        ]\n        print a\n    end\nend\n",
+	"on key k:string\n    print [\n        k // key\n    ] {\n        a: k // again\n    }\nend\n",
+	"print 1\nprint 2\n// c\nfunc f\n    print 3\nend\nf\n",
 }
 
 // ZZC06Corpus: a corpus of layouts of every syntax form.
 func ZZC06Corpus() {
 	k := zzChoice("text", len(zzFmtCorpus))
 	out := zzCheckFormat(zzFmtCorpus[k], "corpus "+strconv.Itoa(k), true)
-	zzA6(out != "" || zzFmtCorpus[k] == "", "C06 corpus: every corpus text is accepted")
+	zzAssert(out != "" || zzFmtCorpus[k] == "", "corpus: every corpus text is accepted")
 	zzReach("corpus-ok")
 	zzWitness("end")
 }
@@ -252,3 +342,78 @@ func ZZC06Docs() {
 }
 
 var _ = parser.Parse
+
+// ZZC07Seq: every sequence of up to SEQ top-level items (statement, own-line
+// comment, blank line, procedure definition, handler definition, block with a
+// comment and a statement inside), and the same items as the body of a block:
+// the blank-line policy around definitions and comments is idempotent and
+// independent of the length of blank-line runs.
+func ZZC07Seq() {
+	n := 1 + zzChoice("items", zzParam("SEQ", 4))
+	inBlock := zzChoice("inblock", 2) == 1
+	pad := ""
+	if inBlock {
+		pad = "    "
+	}
+	var one, two strings.Builder
+	nf := 0
+	write := func(s string) { one.WriteString(s); two.WriteString(s) }
+	if inBlock {
+		write("if true\n")
+	}
+	for k := 0; k < n; k++ {
+		kinds := 6
+		if inBlock {
+			kinds = 4
+		}
+		switch zzChoice("item", kinds) {
+		case 0:
+			write(pad + "print " + strconv.Itoa(k) + "\n")
+		case 1:
+			write(pad + "// c" + strconv.Itoa(k) + "\n")
+		case 2:
+			one.WriteString("\n")
+			two.WriteString("\n\n\n")
+		case 3:
+			write(pad + "while false // w\n" + pad + "    // inner\n" + pad + "    print " + strconv.Itoa(k) + "\n" + pad + "end\n")
+		case 4:
+			nf++
+			write("func f" + strconv.Itoa(nf) + "\n    print " + strconv.Itoa(k) + "\nend\n")
+		case 5:
+			if nf >= 100 {
+				zzAssume(false)
+			}
+			nf += 100
+			write("on key k:string\n    print k\nend\n")
+		}
+	}
+	if inBlock {
+		write("end\n")
+	}
+	f1 := zzCheckFormat(one.String(), "item sequence", false)
+	f2 := zzCheckFormat(two.String(), "item sequence, long blank runs", false)
+	if f1 != f2 {
+		zzLog("C07 not canonical\n--- short blank runs\n" + one.String() + "\n--- long blank runs\n" + two.String() + "\n--- formatted\n" + f1 + "\n---\n" + f2)
+	}
+	zzA7(f1 == f2, "C07: programs differing only in the length of blank-line runs format to the same text")
+	zzReach("seq-ok")
+	zzWitness("end")
+}
+
+// ZZC07Num: number literals over 37 orders of magnitude are printed back in
+// plain decimal notation that the lexer accepts again, with the same value.
+func ZZC07Num() {
+	mant := []string{"1", "15", "123456789", "9007199254740993"}[zzChoice("mantissa", 4)]
+	e := zzChoice("exp", 37) - 12 // 10^-12 .. 10^24
+	lit := mant
+	if e >= 0 {
+		lit += strings.Repeat("0", e)
+	} else {
+		lit = "0." + strings.Repeat("0", -e-1) + mant
+	}
+	src := "n := " + lit + "\nprint n " + lit + " [" + lit + " -" + lit + "]\n"
+	out := zzCheckFormat(src, "number literal "+lit, false)
+	zzAssert(out != "", "number literal is accepted")
+	zzReach("num-ok")
+	zzWitness("end")
+}
